@@ -821,13 +821,14 @@ def comprehension(eng, n, fr, kind):
 # ------------------------------------------------------------- generators
 def run_generator(eng, func, fr):
     """Generator functions are run eagerly; the yielded values form a one-shot Iter."""
-    out = []
+    out = PList([])  # visible to loop contracts as `__yield__` (types / modifies) so that a yielding loop can be cut
     fr.yield_sink = out
+    fr.vars["__yield__"] = out
     try:
         eng.exec_block(func.node.body, fr)
     except ReturnSig:
         pass
-    return Iter(PList(out))
+    return Iter(out)
 
 
 # ---------------------------------------------------------- builtin models
